@@ -6,7 +6,8 @@ from debian_inspector import deb822
 
 ID = 'C05'
 LEVEL = 'proof'
-THEOREMS = [('DebInspector.Thm.C05', ['Props.C05.sound', 'Props.C05.go_final', 'Props.C05.numbers_sublist', 'Props.C05.numbers_increasing'])]
+THEOREMS = [('DebInspector.Thm.C05', ['Props.C05.sound', 'Props.C05.go_final', 'Props.C05.numbers_sublist', 'Props.C05.numbers_increasing']),
+            ('DebInspector.Tie.Unicode', ['Tie.Unicode.reSpace_eq'])]
 TRUSTED = [
     'Lean 4.33.0 kernel',
     'reading of the property as Props.C05.holdsOn (five clauses over the source lines split at LF, CRLF, CR)',
